@@ -160,6 +160,8 @@ fn main() {
             ("gm", _) => 1 + r.below(3) as usize,
             ("slave", _) => 1,
             (_, 7) => 2 + r.below(30) as usize,
+            // a big boundary clock: the observation message exceeds the exporter's 16 KiB read
+            ("bc", 6) if r.chance(1, 6) => 52 + r.below(20) as usize,
             _ => 2 + r.below(4) as usize,
         };
         // ---------------- program
@@ -296,7 +298,7 @@ fn main() {
         let big = |b: i128| if b == 0 { "0" } else if b.unsigned_abs() >> 63 == 0 { "s" } else { "L" };
         let class = format!(
             "{}{}:p{}:pt{}:off{}{}:utc{}{}{}{}:{}",
-            role, if up_seen != up { "~ulp" } else { "" }, nports.min(9), match plen { 0 => "0".to_owned(), 128 => "max".to_owned(), n if n < 4 => format!("{}", n), _ => "n".to_owned() },
+            role, if json.len() > 16384 { "~big" } else if up_seen != up { "~ulp" } else { "" }, nports.min(9), match plen { 0 => "0".to_owned(), 128 => "max".to_owned(), n if n < 4 => format!("{}", n), _ => "n".to_owned() },
             if off_bits < 0 { "-" } else { "+" }, big(off_bits),
             utc.is_some() as u8, tt as u8, ft as u8, pt as u8, states_seen
         );
